@@ -590,8 +590,246 @@ fn race_case() -> BoxedStrategy<RaceCase> {
         .boxed()
 }
 
+
+// ------------------------------------------------------------------------------------------------
+// the same race on a source file, with the schedule steered by the harness
+
+thread_local! {
+    static SRV_RACE: RefCell<Option<(Sandbox, Server, u64)>> = const { RefCell::new(None) };
+}
+
+/// A server whose user dictionary is large (60,000 words): loading it takes tens of milliseconds,
+/// and harper-ls reloads it *while holding the document lock* whenever the identifiers of a source
+/// file change. A request that arrives during that reload waits for the lock and is served right
+/// after the new text was stored - before the new diagnostics are computed. The harness times one
+/// edit and then aims its requests at that phase of the next one.
+fn with_race_server<R>(f: impl FnOnce(&Sandbox, &mut Server, u64) -> Result<R, crate::lsp::LspError>) -> Result<R, crate::lsp::LspError> {
+    SRV_RACE.with(|slot| {
+        let mut slot = slot.borrow_mut();
+        if slot.is_none() {
+            let sb = Sandbox::new("c08race");
+            let mut words = String::new();
+            for i in 0..60_000u32 {
+                words.push_str(&format!("zq{}word{}\n", i % 97, i));
+            }
+            if let Some(d) = sb.user_dict().parent() {
+                let _ = std::fs::create_dir_all(d);
+            }
+            std::fs::write(sb.user_dict(), words).map_err(|e| crate::lsp::LspError::Protocol(e.to_string()))?;
+            let settings = sb.settings(json!({}));
+            let srv = Server::start(&sb, settings, None)?;
+            *slot = Some((sb, srv, 0));
+        }
+        let (sb, srv, n) = slot.as_mut().unwrap();
+        *n += 1;
+        let r = f(sb, srv, *n);
+        if r.is_err() {
+            *slot = None;
+        }
+        r
+    })
+}
+
+pub fn shutdown_race_server() {
+    SRV_RACE.with(|slot| {
+        if let Some((_, srv, _)) = slot.borrow_mut().take() {
+            let _ = srv.shutdown();
+        }
+    });
+}
+
+#[derive(Debug, Clone, Serialize, Deserialize, PartialEq, Eq, Hash)]
+pub struct RaceCodeCase {
+    /// 0 comment lines put in front, 1 first comment line removed, 2 a line break inside the comment
+    pub edit: u8,
+    /// when the requests are sent: this many twentieths of the duration of the previous edit
+    /// after the configuration answer that lets the edit proceed
+    pub when: u8,
+    pub comment: String,
+}
+
+pub fn test_race_code(c: &RaceCodeCase, ctx: &mut CaseCtx) -> Result<(), String> {
+    use std::time::{Duration, Instant};
+    let body = c.comment.replace(['\n', '\r'], " ");
+    let res = with_race_server(|sb, srv, n| {
+        let ident = |k: u64| format!("fn item_{:05}_{k}() {{}}\n", n % 100_000);
+        let old_comment = format!("// {body}\n// Their is an apple on teh table.\n");
+        let new_comment = match c.edit % 3 {
+            0 => format!("// 😀 A new first comment line that is long enough to hold every column of the old text, and more.\n//\n{old_comment}"),
+            1 => "// Their is an apple on teh table.\n".to_string(),
+            _ => old_comment.replacen(" is ", "\n// is ", 1),
+        };
+        let t0 = format!("{old_comment}{}", ident(1));
+        let t0w = format!("{old_comment}{}", ident(2));
+        let t1 = format!("{new_comment}{}", ident(3));
+        let (c0, c1): (Vec<char>, Vec<char>) = (t0w.chars().collect(), t1.chars().collect());
+        // where the lints of either text lie
+        let other = sb.uri(&format!("other{n}.rs"));
+        let d1 = srv.open(&other, "rust", &t1)?;
+        srv.close(&other)?;
+        let uri = sb.uri(&format!("race{n}.rs"));
+        let d0 = srv.open(&uri, "rust", &t0)?;
+        let valid_in = |t: &Vec<char>, p: (u32, u32)| {
+            let i = crate::oracle::lsp_pos::pos_to_index(t, pos_of(p));
+            let q = index_to_pos(t, i);
+            (q.line, q.col) == p
+        };
+        let mut probes: Vec<((u32, u32), (u32, u32))> = vec![];
+        for d in d0.iter().chain(d1.iter()).take(8) {
+            probes.push((d.start, d.end));
+            if d.start.0 == d.end.0 && d.end.1 > d.start.1 + 1 {
+                probes.push(((d.start.0, d.start.1 + 1), (d.start.0, d.start.1 + 1)));
+            }
+        }
+        probes.retain(|(a, b)| valid_in(&c0, *a) && valid_in(&c0, *b) && valid_in(&c1, *a) && valid_in(&c1, *b));
+        probes.dedup();
+        if probes.is_empty() {
+            srv.close(&uri)?;
+            return Ok(None);
+        }
+        srv.manual = true;
+        let r = (|| {
+            // one edit that changes the identifiers, timed from the configuration answer on
+            let before = srv.publications_for(&uri);
+            srv.notify("textDocument/didChange", json!({"textDocument": {"uri": uri, "version": 2}, "contentChanges": [{"text": t0w}]}))?;
+            srv.pump_until(Duration::from_secs(60), "configuration request of didChange", |s| !s.pending_config.is_empty())?;
+            let started = Instant::now();
+            srv.answer_config(0)?;
+            loop {
+                while !srv.pending_config.is_empty() {
+                    srv.answer_config(0)?;
+                }
+                match srv.pump_until(Duration::from_millis(200), "publication after didChange", |s| s.publications_for(&uri) > before || !s.pending_config.is_empty()) {
+                    Ok(()) if srv.publications_for(&uri) > before => break,
+                    Ok(()) => {}
+                    Err(crate::lsp::LspError::Timeout(w)) => {
+                        if started.elapsed() > Duration::from_secs(60) {
+                            return Err(crate::lsp::LspError::Timeout(w));
+                        }
+                    }
+                    Err(e) => return Err(e),
+                }
+            }
+            let took = started.elapsed();
+            // the answers of the quiescent server for the text before the edit
+            let mut a0 = vec![];
+            for (a, b) in &probes {
+                let id = srv.request("textDocument/codeAction", json!({"textDocument": {"uri": uri}, "range": {"start": {"line": a.0, "character": a.1}, "end": {"line": b.0, "character": b.1}}, "context": {"diagnostics": []}}))?;
+                a0.push(srv.wait_response(id, Duration::from_secs(60))?);
+            }
+            // the edit, and the requests aimed at the phase in which the server holds the new text
+            // but has not linted it yet
+            let before = srv.publications_for(&uri);
+            srv.notify("textDocument/didChange", json!({"textDocument": {"uri": uri, "version": 3}, "contentChanges": [{"text": t1}]}))?;
+            srv.pump_until(Duration::from_secs(60), "configuration request of didChange", |s| !s.pending_config.is_empty())?;
+            srv.answer_config(0)?;
+            let wait = took.mul_f64((c.when % 20) as f64 / 20.0);
+            let t = Instant::now();
+            while t.elapsed() < wait {
+                std::hint::spin_loop();
+            }
+            let mut ids = vec![];
+            for (a, b) in &probes {
+                ids.push(srv.request("textDocument/codeAction", json!({"textDocument": {"uri": uri}, "range": {"start": {"line": a.0, "character": a.1}, "end": {"line": b.0, "character": b.1}}, "context": {"diagnostics": []}}))?);
+            }
+            let mut racing = vec![];
+            for id in ids {
+                let t_end = Instant::now() + Duration::from_secs(60);
+                loop {
+                    while !srv.pending_config.is_empty() {
+                        srv.answer_config(0)?;
+                    }
+                    match srv.wait_response(id, Duration::from_millis(300)) {
+                        Ok(v) => {
+                            racing.push(v);
+                            break;
+                        }
+                        Err(crate::lsp::LspError::Timeout(w)) => {
+                            if Instant::now() > t_end {
+                                return Err(crate::lsp::LspError::Timeout(w));
+                            }
+                        }
+                        Err(e) => return Err(e),
+                    }
+                }
+            }
+            loop {
+                while !srv.pending_config.is_empty() {
+                    srv.answer_config(0)?;
+                }
+                match srv.pump_until(Duration::from_millis(200), "publication after didChange", |s| s.publications_for(&uri) > before || !s.pending_config.is_empty()) {
+                    Ok(()) if srv.publications_for(&uri) > before => break,
+                    Ok(()) => {}
+                    Err(crate::lsp::LspError::Timeout(w)) => {
+                        if t.elapsed() > Duration::from_secs(60) {
+                            return Err(crate::lsp::LspError::Timeout(w));
+                        }
+                    }
+                    Err(e) => return Err(e),
+                }
+            }
+            // the answers of the quiescent server for the text after the edit
+            let mut a1 = vec![];
+            for (a, b) in &probes {
+                let id = srv.request("textDocument/codeAction", json!({"textDocument": {"uri": uri}, "range": {"start": {"line": a.0, "character": a.1}, "end": {"line": b.0, "character": b.1}}, "context": {"diagnostics": []}}))?;
+                a1.push(srv.wait_response(id, Duration::from_secs(60))?);
+            }
+            Ok((took, a0, racing, a1))
+        })();
+        srv.manual = false;
+        while !srv.pending_config.is_empty() {
+            srv.answer_config(0)?;
+        }
+        let out = r?;
+        srv.close(&uri)?;
+        Ok(Some((probes, t0w, t1, out)))
+    });
+    let (probes, t0w, t1, (took, a0, racing, a1)) = match res {
+        Ok(Some(v)) => v,
+        Ok(None) => {
+            ctx.class("no_lint_position_common_to_both_texts");
+            return Ok(());
+        }
+        Err(e) => {
+            if std::env::var("HV_DEBUG_RACE").is_ok() {
+                eprintln!("RACE-INFRA {e:?} case={}", serde_json::to_string(c).unwrap_or_default());
+            }
+            ctx.infra(e);
+            return Ok(());
+        }
+    };
+    ctx.nontrivial(c);
+    ctx.class_if(took >= std::time::Duration::from_millis(20), "dictionary_reload_takes_20ms_or_more");
+    let (mut old, mut new) = (0, 0);
+    for k in 0..probes.len() {
+        let r = &racing[k];
+        if let Some(err) = r.get("error") {
+            return Err(format!("code-action request at {:?} sent {:?} into an edit of a Rust file failed: {err}", probes[k], took.mul_f64((c.when % 20) as f64 / 20.0)));
+        }
+        let is_old = r["result"] == a0[k]["result"];
+        let is_new = r["result"] == a1[k]["result"];
+        old += (is_old && !is_new) as usize;
+        new += (is_new && !is_old) as usize;
+        if !is_old && !is_new {
+            return Err(format!(
+                "Rust file edited from {:?} to {:?}; code actions requested at {:?} while the edit was being processed ({:?} after the configuration answer; the previous edit took {:?}) are neither what the server answers for the text before the edit nor what it answers for the text after it: {}",
+                t0w, t1, probes[k], took.mul_f64((c.when % 20) as f64 / 20.0), took,
+                crate::core::truncate(&r["result"].to_string(), 600)
+            ));
+        }
+    }
+    ctx.class_if(old > 0, "answered_from_the_text_before_the_edit");
+    ctx.class_if(new > 0, "answered_from_the_text_after_the_edit");
+    Ok(())
+}
+
+fn race_code_case() -> BoxedStrategy<RaceCodeCase> {
+    let bad = g::sel_str(&["See you tomorow.", "I could of done it teh right way.", "This is an test with an problm.", "We saw the the cat.", "An 1nd time it happend again."]);
+    (0u8..3, prop_oneof![1 => 0u8..8, 2 => 8u8..20], bad).prop_map(|(edit, when, comment)| RaceCodeCase { edit, when, comment }).boxed()
+}
+
 pub fn run(run: &mut Run) {
-    run.rule = "documents of 1-5 generated lines (G-TEXT sentences, known-bad sentences, astral / combining / tab prefixes) with LF, CRLF and blank-line separators, with and without trailing newline, opened in the real harper-ls under 9 language ids; for every published diagnostic one codeAction request with its own range and one zero-width request at every char position inside it (<=40). Oracle: independent LSP position arithmetic (UTF-16 columns, lines split at \\n): diagnostic range == reference range of the lint carried in the answer, every inside position returns that lint's fixes, each TextEdit applied like a client == Suggestion::apply on the char span == reference splice; for plain/Markdown/HTML/Typst the published set equals the in-process lints. code_actions_racing_an_edit: a didChange and, right behind the configuration answer that lets it proceed, code-action requests at the lint positions of the old and the new text: every answer must be a quick fix of the text before or of the text after the edit (lint among that text's lints, edits = reference splice), never a mixture, and no request may fail. Non-trivial = lint on a later line, astral char before a lint on its line, or lint on the last line without trailing newline.".into();
+    run.rule = "documents of 1-5 generated lines (G-TEXT sentences, known-bad sentences, astral / combining / tab prefixes) with LF, CRLF and blank-line separators, with and without trailing newline, opened in the real harper-ls under 9 language ids; for every published diagnostic one codeAction request with its own range and one zero-width request at every char position inside it (<=40). Oracle: independent LSP position arithmetic (UTF-16 columns, lines split at \\n): diagnostic range == reference range of the lint carried in the answer, every inside position returns that lint's fixes, each TextEdit applied like a client == Suggestion::apply on the char span == reference splice; for plain/Markdown/HTML/Typst the published set equals the in-process lints. code_actions_racing_an_edit: a didChange and, right behind the configuration answer that lets it proceed, code-action requests at the lint positions of the old and the new text: every answer must be a quick fix of the text before or of the text after the edit (lint among that text's lints, edits = reference splice), never a mixture, and no request may fail. code_actions_racing_a_source_file_edit: the same on Rust files with a 60,000-word user dictionary, whose reload under the document lock (identifiers changed) the harness times on one edit and aims its requests at on the next; every answer must equal what the quiescent server answers for the text before or for the text after the edit. Non-trivial = lint on a later line, astral char before a lint on its line, or lint on the last line without trailing newline.".into();
     let n = run.n(1_000, 10_000);
     run.threads = run.threads.min(8);
     run.max_shrink_iters = 80;
@@ -605,9 +843,27 @@ pub fn run(run: &mut Run) {
     run.prop("code_actions_racing_an_edit", n, race_case, test_race);
     run.require_class("code_actions_racing_an_edit", "answered_from_the_text_before_the_edit", (n / 20) as u64);
     run.require_class("code_actions_racing_an_edit", "answered_from_the_text_after_the_edit", (n / 20) as u64);
+    let n = run.n(96, 1_500);
+    let saved = run.threads;
+    run.threads = run.threads.min(4);
+    run.prop("code_actions_racing_a_source_file_edit", n, race_code_case, test_race_code);
+    run.threads = saved;
+    run.require_class("code_actions_racing_a_source_file_edit", "dictionary_reload_takes_20ms_or_more", (n / 2) as u64);
+    run.require_class("code_actions_racing_a_source_file_edit", "answered_from_the_text_before_the_edit", (n / 32) as u64);
+    run.require_class("code_actions_racing_a_source_file_edit", "answered_from_the_text_after_the_edit", (n / 20) as u64);
 }
 
 pub fn replay(_check: &str, case: Value, _run: &mut Run) -> Result<(), String> {
+    if _check == "code_actions_racing_a_source_file_edit" {
+        let c: RaceCodeCase = serde_json::from_value(case).map_err(|e| e.to_string())?;
+        let mut ctx = CaseCtx::default();
+        let r = test_race_code(&c, &mut ctx);
+        shutdown_race_server();
+        if let Some(i) = ctx.classes.iter().find(|c| c.starts_with("INFRA")) {
+            return Err(format!("infrastructure problem during replay: {i}"));
+        }
+        return r;
+    }
     if _check == "code_actions_racing_an_edit" {
         let c: RaceCase = serde_json::from_value(case).map_err(|e| e.to_string())?;
         let mut ctx = CaseCtx::default();
